@@ -762,6 +762,29 @@ TYPED = [
         ("wait_find_hit", "__iv_wait_interest_find", ("cond", "if", 0), {}),
         ("wait_find_left", "__iv_wait_interest_find", ("cond", "if", 1), {}),
     ]),
+    # ---- index arithmetic and guards of the timer heap (linked to Timer/HeapModel.v by Timer/HeapLink.v) ----
+    ("LeafHeap.v", "iv_timer.c", [
+        ("heap_pull_more", "pull_up", ("cond", "while", 0), {}),
+        ("heap_pull_parent", "pull_up", ("stmt", "parent", 0), {}),
+        ("heap_pull_next", "pull_up", ("stmt", "index", 0), {}),
+        ("heap_push_has_child", "push_down", ("cond", "if", 0), {}),
+        ("heap_push_self", "push_down", ("stmt", "index_min", 0), {}),
+        ("heap_push_left", "push_down", ("stmt", "index_min", 1), {}),
+        ("heap_push_right", "push_down", ("stmt", "index_min", 2), {}),
+        ("heap_push_node", "push_down", ("arg", "iv_timer_get_node", 0, 1), {}),
+        ("heap_push_done", "push_down", ("cond", "if", 3), {}),
+        ("heap_push_next", "push_down", ("stmt", "index", 0), {}),
+        ("heap_reg_misuse", "iv_timer_register", ("cond", "if", 0), {}),
+        ("heap_reg_index", "iv_timer_register", ("stmt", "index", 0), {}),
+        ("heap_reg_numobjs", "iv_timer_register", ("stmt", "st->numobjs", 0), {}),
+        ("heap_unreg_misuse", "iv_timer_unregister", ("cond", "if", 0), {}),
+        ("heap_unreg_in_heap", "iv_timer_unregister", ("cond", "if", 1), {}),
+        ("heap_unreg_range", "iv_timer_unregister", ("cond", "if", 2), {}),
+        ("heap_run_none", "iv_run_timers", ("cond", "if", 0), {}),
+        ("heap_run_more", "iv_run_timers", ("cond", "while", 0), {}),
+        ("heap_run_root_index", "iv_run_timers", ("cond", "if", 2), {}),
+        ("heap_soonest_any", "iv_get_soonest_timeout", ("cond", "if", 0), {}),
+    ]),
     # ---- decision points of the sequential core loop (linked to Core/CoreModel.v, CoreFd.v by Core/CoreLeafLink.v) ----
     ("LeafCoreFd.v", "iv_fd.c", [
         ("core_tc_armed", "iv_fd_timeout_check", ("cond", "if", 0), {}),
